@@ -92,7 +92,7 @@ impl<C: Cursor> Cursor for ConcatenatingCursor<C> {
     fn next(&mut self) -> Result<(), SError> {
         loop {
             self.cursors[self.position].next()?;
-            if self.cursors[self.position].value().is_none()
+            if self.cursors[self.position].key().is_none()
                 && self.position + 1 < self.cursors.len()
             {
                 self.reposition(self.position + 1)?;
